@@ -2,6 +2,7 @@ package c20
 
 import (
 	"bytes"
+	"net"
 	"encoding/json"
 	"fmt"
 	"os"
@@ -20,6 +21,7 @@ import (
 	"github.com/cenkalti/rain/v2/verifharness/core"
 	"github.com/cenkalti/rain/v2/verifharness/model"
 	"github.com/cenkalti/rain/v2/verifharness/sess"
+	"github.com/cenkalti/rain/v2/verifharness/strk"
 	"pgregory.net/rapid"
 )
 
@@ -120,6 +122,21 @@ func stress(c RaceCase, dir string) {
 		}
 		infos = append(infos, tinfo{mi: mi, id: fmt.Sprintf("leech%d", i), port: t.Port()})
 	}
+	// a tracker that answers every announce with the seeder's address
+	trk, err := strk.NewHTTP(sess.IP(50)+":0", func(n int, r strk.HTTPReq) []byte {
+		var peers []byte
+		for _, ti := range infos {
+			ip := net.ParseIP(sess.IP(0)).To4()
+			peers = append(peers, ip...)
+			peers = append(peers, byte(ti.port>>8), byte(ti.port))
+		}
+		return strk.OKResponse(model.Benc(map[string]any{"interval": int64(1), "min interval": int64(1), "peers": peers}))
+	})
+	if err != nil {
+		rep.Hang = "tracker: " + err.Error()
+		return
+	}
+	defer trk.Close()
 	leecher, err := torrent.NewSession(leechCfg)
 	if err != nil {
 		rep.Hang = "leecher session: " + err.Error()
@@ -132,6 +149,7 @@ func stress(c RaceCase, dir string) {
 			rep.Hang = "leecher add: " + err.Error()
 			return
 		}
+		_ = t.AddTracker(trk.URL())
 		_ = t.AddPeer(fmt.Sprintf("%s:%d", sess.IP(0), infos[i].port))
 	}
 	rpc := rainrpc.NewClient(fmt.Sprintf("http://%s:%d", sess.IP(0), 17246))
